@@ -107,10 +107,12 @@ def check(world, plans, results):
     if len(set(rcs.values())) != 1:
         v.fail("agree:rc", "entry points disagree on the return code: %r" % rcs)
     else:
-        ref = canon(strip_volatile(conf_view(dumps[tags[0]])))
+        # "identical configurations": the complete ordered listing, not only the mapping
+        ref = canon(strip_volatile(dumps[tags[0]]))
         for t in tags[1:]:
-            if canon(strip_volatile(conf_view(dumps[t]))) != ref:
-                v.fail("agree:content", "%s and %s return different configurations" % (tags[0], t))
+            if canon(strip_volatile(dumps[t])) != ref:
+                how = "different configurations" if canon(strip_volatile(conf_view(dumps[t]))) != canon(strip_volatile(conf_view(dumps[tags[0]]))) else "the same mapping in a different order / with different tags"
+                v.fail("agree:content", "%s and %s return %s" % (tags[0], t, how))
                 break
     # against the model (D7 aware)
     c01.compare_with_model(v, world, rcs[tags[0]], dumps[tags[0]], res, None, oracle_prefix="m5")
